@@ -40,6 +40,9 @@ def main():
     ap.add_argument("--workers", type=int, default=int(os.environ.get("VERIF_WORKERS", "0")) or None)
     ap.add_argument("--replay", default=None)
     ap.add_argument("--no-evidence", action="store_true")
+    ap.add_argument("--dump-digests", default=None, help="write 'engine k digest' lines of every run to this file (self-tests)")
+    ap.add_argument("--first", type=int, default=None, help="run only indices 0..N-1 of every part")
+    ap.add_argument("--trace-digest", default=None, help="execute the trace of a replay file and print its digest")
     args = ap.parse_args()
 
     try:
@@ -62,6 +65,12 @@ def main():
 
     if args.replay:
         return do_replay(args.replay, core, get_engine)
+    if args.trace_digest:
+        with open(args.trace_digest) as f:
+            rep = json.load(f)
+        res = core.run_trace(get_engine(rep["engine"]), rep["trace"], rep.get("focus", rep["property"]))
+        print("TRACE-DIGEST", res["digest"], "harness_error" if res["harness_error"] else "ok")
+        return 0
 
     prop = args.prop
     if prop not in PROPERTIES:
@@ -76,7 +85,9 @@ def main():
     results, truncated = [], False
     for part in parts:
         n_runs = part["runs"][tier]
-        if args.runs:
+        if args.first:
+            n_runs = min(n_runs, args.first)
+        elif args.runs:
             n_runs = max(1, int(args.runs * part["runs"][tier] / max(1, sum(q["runs"][tier] for q in parts))))
         res, trunc = core.explore(part["engine"], prop, tier, seed, n_runs, budget, workers, block=part.get("block", 8))
         for r in res:
@@ -84,6 +95,16 @@ def main():
         results.extend(res)
         truncated = truncated or trunc
     wall_explore = time.time() - t0
+    if args.dump_digests:
+        with open(args.dump_digests, "w") as f:
+            for r in results:
+                f.write(f"{r.get('engine')} {r['k']} {r['digest']} {r['sig']} {len(r['violations'])}\n")
+
+    cross_note = None
+    n_cross = spec.get("cross_interpreter", {}).get(tier, 0) if not args.first else 0
+    if n_cross and not os.environ.get("VERIF_NO_CROSS"):
+        cross_note = cross_interpreter(prop, n_cross, results, seed, tier, core, get_engine)
+        spec = dict(spec, _cross_compared=cross_note)
 
     known = core.load_known()
     harness_errors = [r for r in results if r.get("harness_error")]
@@ -114,18 +135,28 @@ def main():
         print(f"violation in run {r['k']}: clause={v['clause']} op={v['op']}\n  {v['msg']}")
         trace = r["trace"]
         engine = get_engine(r["engine"])
-        minimised, tried = core.shrink(engine, trace, prop, target, max_s=float(os.environ.get("VERIF_SHRINK_S", "60")))
-        res_min = core.run_trace(engine, minimised, prop)
-        vmin = next((x for x in res_min["violations"] if (x["property"], x["clause"]) == target), v)
-        replay_path = core.write_replay(prop, seed, r["k"], r["engine"], prop, minimised, trace, vmin)
-        print(f"minimised after {tried} candidate executions; clause={vmin['clause']}\n  {vmin['msg']}")
-        code, out = core.replay_in_fresh_process(replay_path)
-        if code == 1 and "VIOLATION property=%s" % prop in out:
-            print(f"VIOLATION property={prop} replay={replay_path}")
-            rc = 1
+        if v["clause"] == "differs-across-interpreters":
+            replay_path = core.write_replay(prop, seed, r["k"], r["engine"], prop, trace, trace, v)
+            code, out = core.replay_in_fresh_process(replay_path)
+            if code == 1:
+                print(f"VIOLATION property={prop} replay={replay_path}")
+                rc = 1
+            else:
+                print(f"HARNESS-ERROR cross-interpreter difference did not reproduce:\n{out[-600:]}")
+                rc = 2
         else:
-            print(f"HARNESS-ERROR replay of {replay_path} in a fresh process did not reproduce (exit {code}):\n{out[-800:]}")
-            rc = 2
+            minimised, tried = core.shrink(engine, trace, prop, target, max_s=float(os.environ.get("VERIF_SHRINK_S", "60")))
+            res_min = core.run_trace(engine, minimised, prop)
+            vmin = next((x for x in res_min["violations"] if (x["property"], x["clause"]) == target), v)
+            replay_path = core.write_replay(prop, seed, r["k"], r["engine"], prop, minimised, trace, vmin)
+            print(f"minimised after {tried} candidate executions; clause={vmin['clause']}\n  {vmin['msg']}")
+            code, out = core.replay_in_fresh_process(replay_path)
+            if code == 1 and "VIOLATION property=%s" % prop in out:
+                print(f"VIOLATION property={prop} replay={replay_path}")
+                rc = 1
+            else:
+                print(f"HARNESS-ERROR replay of {replay_path} in a fresh process did not reproduce (exit {code}):\n{out[-800:]}")
+                rc = 2
     seen_known = set()
     for k, v, e in known_hits:
         keyk = (e["property"], e["clause"], e.get("key", ""))
@@ -185,6 +216,7 @@ def write_evidence(prop, spec, tier, seed, results, truncated, wall, wall_explor
             "schedule_dimension": spec.get("schedule_dimension", "none"),
             "workers": workers,
             "wall_cap_reached": truncated,
+            "cross_interpreter_runs_compared": spec.get("_cross_compared", 0),
             "engines": [q["engine"] for q in parts],
         },
         "assumptions": spec.get("assumptions", []),
@@ -197,12 +229,63 @@ def write_evidence(prop, spec, tier, seed, results, truncated, wall, wall_explor
     os.replace(tmp, os.path.join(d, f"{prop}.json"))
 
 
+def cross_interpreter(prop, n, results, seed, tier, core, get_engine):
+    """Re-execute the first n runs of every part in a FRESH interpreter under another hash seed and compare the
+    event-log digests.  A difference is attributed to the run (as a violation where the property promises
+    repeatability, else as a harness error)."""
+    import subprocess
+    import tempfile
+    out = tempfile.mktemp(prefix="cross-", suffix=".txt", dir=core.scratch_root())
+    env = dict(os.environ, VERIF_HASHSEED="7321", VERIF_SEED=str(seed), VERIF_NO_CROSS="1")
+    cp = subprocess.run([sys.executable, os.path.join(VERIF_DIR, "check.py"), prop, "--tier", tier, "--first", str(n),
+                         "--no-evidence", "--dump-digests", out], capture_output=True, text=True, env=env, timeout=1800)
+    other = {}
+    if os.path.exists(out):
+        for line in open(out):
+            e, k, dg = line.split()[:3]
+            other[(e, int(k))] = dg
+    n_cmp = 0
+    for r in results:
+        key = (r.get("engine"), r["k"])
+        if key in other and not r.get("harness_error"):
+            n_cmp += 1
+            if other[key] != r["digest"]:
+                engine = get_engine(r["engine"])
+                if prop in getattr(engine, "NONDETERMINISM_IS_VIOLATION", ()):
+                    from sim.core import derive_rng
+                    rng = derive_rng(seed, r["engine"], r["k"])
+                    trace = engine.generate(rng, tier, prop, r["k"]) if getattr(engine, "USES_INDEX", False) else engine.generate(rng, tier, prop)
+                    r["violations"].append({"property": prop, "clause": "differs-across-interpreters",
+                                            "msg": "the same seeded run gave a different event log in a fresh interpreter under "
+                                                   "another PYTHONHASHSEED", "op": -1, "key": ""})
+                    r["trace"] = trace
+                    r["cross"] = True
+                else:
+                    r["harness_error"] = f"cross-interpreter determinism: digests differ for run {r['k']} of {r['engine']}"
+    if n_cmp == 0:
+        results[0]["harness_error"] = "cross-interpreter step compared nothing:\n" + cp.stdout[-500:] + cp.stderr[-500:]
+    return n_cmp
+
+
 def do_replay(path, core, get_engine):
     with open(path) as f:
         rep = json.load(f)
     engine = get_engine(rep["engine"])
     prop = rep["property"]
     res = core.run_trace(engine, rep["trace"], rep.get("focus", prop))
+    if rep.get("violation", {}).get("clause") == "differs-across-interpreters":
+        import subprocess
+        env = dict(os.environ, VERIF_HASHSEED="7321")
+        cp = subprocess.run([sys.executable, os.path.join(VERIF_DIR, "check.py"), "--trace-digest", path],
+                            capture_output=True, text=True, env=env, timeout=1800)
+        other = [l.split()[1] for l in cp.stdout.splitlines() if l.startswith("TRACE-DIGEST")]
+        print(f"replay {path}: digest here {res['digest'][:16]}, in a fresh interpreter under another hash seed "
+              f"{other[0][:16] if other else None}")
+        if other and other[0] != res["digest"]:
+            print(f"VIOLATION property={prop} replay={path}")
+            return 1
+        print("replay: digests agree")
+        return 0
     if res["harness_error"]:
         print("HARNESS-ERROR during replay:\n" + res["harness_error"])
         return 2
